@@ -364,6 +364,27 @@ def opVecDGen (op : String) (ws : List String) : Option String :=
   | "Entropy" => sc (Gen.esl_vec_DEntropy x n)
   | _ => none
 
+/-- the same routines over `float` as REGENERATED (binary32 cells, the double sub-expressions of the C text at `Float`: `VMix Float32 Float`) -/
+def opVecFGen (op : String) (ws : List String) : Option String :=
+  let x : Array Float32 := ((chunks 4 ((argHex? ws "x").getD [])).map codecF.dec).toArray
+  let len : Int := x.size
+  let n : Int := match argInt? ws "n" with | some k => if k < len && k ≥ 0 then k else len | none => len
+  let vc (o : Option (Array Float32)) : Option String :=
+    some (match o with | some r => "ok " ++ hexOrDash ((r.extract 0 n.toNat).toList.flatMap codecF.enc) | none => "fault")
+  let sc (o : Option Float32) : Option String := some (match o with | some r => "ok " ++ fbits r | none => "fault")
+  match op with
+  | "Norm" => vc (Gen.esl_vec_FNorm x n)
+  | "Log" => vc (Gen.esl_vec_FLog x n)
+  | "Log2" => vc (Gen.esl_vec_FLog2 x n)
+  | "Exp" => vc (Gen.esl_vec_FExp x n)
+  | "Exp2" => vc (Gen.esl_vec_FExp2 x n)
+  | "LogSum" => sc (Gen.esl_vec_FLogSum x n)
+  | "Log2Sum" => sc (Gen.esl_vec_FLog2Sum x n)
+  | "LogNorm" => vc (Gen.esl_vec_FLogNorm x n)
+  | "Log2Norm" => vc (Gen.esl_vec_FLog2Norm x n)
+  | "Entropy" => sc (Gen.esl_vec_FEntropy x n)
+  | _ => none
+
 /-- both models of a routine must agree (the regenerated one and the hand model that carries the real-number theorems) -/
 def agree (g h : String) : String := if g == h then g else "model-mismatch gen=[" ++ g ++ "] hand=[" ++ h ++ "]"
 
@@ -388,7 +409,10 @@ def opVec (ws : List String) : String :=
                  if op == "CDF" || op == "CDFInPlace" then
                    (opVecGen codecD "D" op ws).map fun g => agree g (opVecD op ((doubles xb).take (nPre (xb.length / 8))) [] 0 m)
                  else opVecGen codecD "D" op ws
-      | 'F' => if op == "CDF" || op == "CDFInPlace" then
+      | 'F' => match opVecFGen op ws with
+               | some g => some (agree g (opVecF op ((floats xb).take (nPre (xb.length / 4))) [] (Float32.ofBits (UInt32.ofNat sbits)) m))
+               | none =>
+               if op == "CDF" || op == "CDFInPlace" then
                  (opVecGen codecF "F" op ws).map fun g => agree g (opVecF op ((floats xb).take (nPre (xb.length / 4))) [] 0 m)
                else opVecGen codecF "F" op ws
       | 'I' => opVecGen codecI "I" op ws
